@@ -126,8 +126,9 @@ def run(workdir, module, cfg, workers=8, timeout=600, simulate=None, depth=None,
         m = _re_act.search(out)
         if m:
             r.violated, r.kind = m.group(1), 'action'
-        elif 'Temporal properties were violated' in out:
-            r.violated, r.kind = 'temporal', 'temporal'
+        elif 'Temporal properties were violated' in out or re.search(r'Temporal property (\w+) was violated', out):
+            mm = re.search(r'Temporal property (\w+) was violated', out)
+            r.violated, r.kind = (mm.group(1) if mm else 'temporal'), 'temporal'
         elif 'Deadlock reached' in out:
             r.violated, r.kind = 'deadlock', 'deadlock'
         elif re.search(r'Postcondition|postcondition', out) and 'violated' in out:
